@@ -102,7 +102,7 @@ CHECKS = {
              "Oracle: expected timeline = input canvases (smaller pictures at (0,0) on transparent) with consecutive identical ones merged; actual = DecodeBytes+DecodeFrames+AnimDecoder snapshots merged the same way; pictures equal in order (alpha-0 pixels equal whatever their colour), canvas size equal, and with >=2 distinct pictures per-picture display time, total duration and (clamped) loop count equal; every file passes riffwalk. "
              "Non-trivial: >=2 distinct pictures and a sub-frame, merged duplicate or forced key frame; distinct = (alpha class, edit kinds, Kmin/Kmax, blend/dispose modes in the file, sub-frame/merge/filler seen).",
         assumptions=["frame durations are generated in 0..2^24-1 ms (a single duration above the container's 24-bit field cannot be stored)"],
-        tests=[dict(name="TestC08", quick=3200, thorough=48000)],
+        tests=[dict(name="TestC08", quick=6400, thorough=64000)],
     ),
     "C18": dict(
         level="exploration",
